@@ -172,6 +172,13 @@ def boo(t) -> T:
 
 
 # ------------------------------------------------------------------ constructors with light folding
+RAW = [False]  # floating-point faithful construction: no re-association, no c1*(c2*y) merging, no x/c -> (1/c)*x
+
+
+def set_raw(flag: bool):
+    RAW[0] = bool(flag)
+
+
 def add(a, b) -> T:
     a, b = num(a), num(b)
     if isc(a) and isc(b):
@@ -187,6 +194,11 @@ def add(a, b) -> T:
 
 def addn(xs: Iterable) -> T:
     """n-ary sum (flat node, avoids deep chains)."""
+    if RAW[0]:
+        r = None
+        for x in xs:
+            r = num(x) if r is None else add(r, x)
+        return ZERO if r is None else r
     c = Fraction(0)
     ts: List[T] = []
     for x in xs:
@@ -237,7 +249,7 @@ def mul(a, b) -> T:
                 return neg(y)
             if isc(y):
                 return const(cval(x) * cval(y))
-            if y.op == "*" and isc(y.args[0]):
+            if y.op == "*" and isc(y.args[0]) and not RAW[0]:
                 return mul(const(cval(x) * cval(y.args[0])), y.args[1])
             if y.op == "neg":
                 return mul(const(-cval(x)), y.args[0])
@@ -253,8 +265,8 @@ def mul(a, b) -> T:
 
 def div(a, b) -> T:
     a, b = num(a), num(b)
-    if isc(b) and cval(b) != 0:
-        return mul(const(1 / cval(b)), a)
+    if isc(b) and cval(b) != 0 and not (RAW[0] and (cval(b).numerator & (cval(b).numerator - 1) or cval(b).denominator & (cval(b).denominator - 1))):
+        return mul(const(1 / cval(b)), a)  # (in raw mode only for powers of two, where it is exact)
     if isc(a) and cval(a) == 0 and not isc(b):
         # 0 / b : keep the division so that b != 0 remains an obligation
         return T("/", (a, b), R)
@@ -1508,3 +1520,74 @@ def rational_zero_poly(P, recips, expand, pmul, padd, limit, depth=0):
             if not rational_zero_poly(Q, recips, expand, pmul, padd, limit, depth + 1):
                 return False
     return True
+
+
+
+# ------------------------------------------------------------------ floating-point (binary32) interpretation of terms
+def to_z3_fp(roots: List[T], names: Optional[dict] = None):
+    """Translate terms to z3 FloatingPoint (Float32, round-nearest-even) expressions: every real variable is a float32,
+    every constant the nearest float32, n-ary sums are accumulated left to right. Meant for terms built in RAW mode from
+    float32 kernels (element-wise arithmetic; the accumulation order / FMA use of matrix kernels is an assumption, which is
+    why every FP model is replayed on the real code). Returns (list of z3 expressions, {var name: z3 const})."""
+    import z3
+
+    F32 = z3.Float32()
+    rm = z3.RNE()
+    memo: Dict[T, object] = {}
+    vars_: Dict[str, object] = {} if names is None else names
+    for n in postorder(roots):
+        op = n.op
+        a = [memo[k] for k in kids(n)]
+        if op == "c":
+            v = cval(n)
+            if isinstance(v, bool):
+                z = z3.BoolVal(v)
+            else:
+                z = z3.fpRealToFP(rm, z3.RealVal(f"{v.numerator}/{v.denominator}"), F32)
+                z = z3.simplify(z)
+        elif op == "v":
+            name, kind = n.args
+            if kind == "bool":
+                z = z3.Bool(name)
+            else:
+                z = vars_.get(name)
+                if z is None:
+                    z = vars_[name] = z3.FP(name, F32)
+        elif op == "true":
+            z = z3.BoolVal(True)
+        elif op == "false":
+            z = z3.BoolVal(False)
+        elif op == "+":
+            z = z3.fpAdd(rm, a[0], a[1])
+        elif op == "sum":
+            z = a[0]
+            for x in a[1:]:
+                z = z3.fpAdd(rm, z, x)
+        elif op == "*":
+            z = z3.fpMul(rm, a[0], a[1])
+        elif op == "/":
+            z = z3.fpDiv(rm, a[0], a[1])
+        elif op == "neg":
+            z = z3.fpNeg(a[0])
+        elif op == "ite":
+            z = z3.If(a[0], a[1], a[2])
+        elif op == "<":
+            z = z3.fpLT(a[0], a[1])
+        elif op == "<=":
+            z = z3.fpLEQ(a[0], a[1])
+        elif op == "==":
+            z = (a[0] == a[1]) if n.args[0].sort == B else z3.fpEQ(a[0], a[1])
+        elif op == "not":
+            z = z3.Not(a[0])
+        elif op == "and":
+            z = z3.And(*a)
+        elif op == "or":
+            z = z3.Or(*a)
+        elif op == "floor":
+            z = z3.fpRoundToIntegral(z3.RTN(), a[0])
+        elif op == "fn" and n.args[0] == "sqrt":
+            z = z3.fpSqrt(rm, memo[n.args[1]])
+        else:
+            raise NotImplementedError(f"floating-point translation of {op} {n.args[0] if op == 'fn' else ''}")
+        memo[n] = z
+    return [memo[r] for r in roots], vars_
